@@ -228,6 +228,7 @@ CritsStarted ==
     ELSE IF status = "Optimal" \/ status = "" THEN Len(crits)
     ELSE IF k = 0 THEN 0 ELSE CritOfStep(inst, crits, k)
 
+PresentedT == IF TimedOut THEN "timeout" ELSE IF status # "Optimal" THEN "status" ELSE "full"
 Presented ==
     IF TimedOut THEN [t |-> "timeout", limit |-> opts.limit]
     ELSE IF status # "Optimal" THEN [t |-> "status", status |-> status]
